@@ -13,6 +13,7 @@ import (
 	"time"
 
 	"github.com/hydraide/hydraide/app/core/hydra/swamp/treasure"
+	"github.com/hydraide/hydraide/app/verifhook"
 )
 
 type Beacon interface {
@@ -827,6 +828,9 @@ func (b *beacon) PushManyFromMap(treasures map[string]treasure.Treasure) {
 // Add adds a new element to the beacon
 func (b *beacon) Add(d treasure.Treasure) {
 	atomic.StoreInt32(&b.initialized, 1)
+	if verifhook.Enabled {
+		verifhook.Yield("beacon.add.enter", b, d)
+	}
 	// add element if the key is not in the map
 	b.mu.Lock()
 	defer b.mu.Unlock()
@@ -965,6 +969,9 @@ func (b *beacon) ShiftExpired(howMany int) []treasure.Treasure {
 
 	atomic.StoreInt32(&b.initialized, 1)
 
+	if verifhook.Enabled {
+		verifhook.Yield("beacon.select.enter", "shiftexpired", b)
+	}
 	b.mu.Lock()
 	defer b.mu.Unlock()
 
@@ -990,6 +997,10 @@ func (b *beacon) ShiftExpired(howMany int) []treasure.Treasure {
 		treasureObj.ReleaseTreasureGuard(lockerID)
 	}
 	b.treasuresByOrder = remainingTreasures
+	if verifhook.Enabled {
+		verifhook.Trace("beacon.select", "b", b, "kind", "shiftexpired", "taken", shiftedTreasures, "capReached", false)
+		verifhook.Yield("beacon.select.exit", "shiftexpired", b)
+	}
 	return shiftedTreasures
 
 }
@@ -1005,6 +1016,9 @@ func (b *beacon) ShiftMatching(howMany int, predicate func(treasure.Treasure) bo
 		return nil, false
 	}
 
+	if verifhook.Enabled {
+		verifhook.Yield("beacon.select.enter", "shiftmatching", b)
+	}
 	b.mu.Lock()
 	defer b.mu.Unlock()
 
@@ -1029,7 +1043,13 @@ func (b *beacon) ShiftMatching(howMany int, predicate func(treasure.Treasure) bo
 			}
 		}
 		budget := capMax - currentMatching
+		if verifhook.Enabled {
+			verifhook.Trace("beacon.cap", "b", b, "kind", "shiftmatching", "matching", currentMatching, "max", capMax, "howMany", howMany)
+		}
 		if budget <= 0 {
+			if verifhook.Enabled {
+				verifhook.Trace("beacon.select", "b", b, "kind", "shiftmatching", "taken", []treasure.Treasure(nil), "capReached", true)
+			}
 			return nil, true
 		}
 		if budget < effectiveHowMany {
@@ -1071,6 +1091,10 @@ func (b *beacon) ShiftMatching(howMany int, predicate func(treasure.Treasure) bo
 		capReached = true
 	}
 
+	if verifhook.Enabled {
+		verifhook.Trace("beacon.select", "b", b, "kind", "shiftmatching", "taken", shiftedTreasures, "capReached", capReached)
+		verifhook.Yield("beacon.select.exit", "shiftmatching", b)
+	}
 	return shiftedTreasures, capReached
 }
 
@@ -1090,6 +1114,9 @@ func (b *beacon) SelectExpiredForPatchWithCap(howMany int, selectionPredicate fu
 
 	atomic.StoreInt32(&b.initialized, 1)
 
+	if verifhook.Enabled {
+		verifhook.Yield("beacon.select.enter", "patchexpired", b)
+	}
 	b.mu.Lock()
 	defer b.mu.Unlock()
 
@@ -1118,7 +1145,13 @@ func (b *beacon) SelectExpiredForPatchWithCap(howMany int, selectionPredicate fu
 			}
 		}
 		budget := capMax - currentMatching
+		if verifhook.Enabled {
+			verifhook.Trace("beacon.cap", "b", b, "kind", "patchexpired", "matching", currentMatching, "max", capMax, "howMany", howMany)
+		}
 		if budget <= 0 {
+			if verifhook.Enabled {
+				verifhook.Trace("beacon.select", "b", b, "kind", "patchexpired", "taken", []treasure.Treasure(nil), "capReached", true)
+			}
 			return nil, true
 		}
 		if budget < effectiveHowMany {
@@ -1155,6 +1188,10 @@ func (b *beacon) SelectExpiredForPatchWithCap(howMany int, selectionPredicate fu
 		capReached = true
 	}
 
+	if verifhook.Enabled {
+		verifhook.Trace("beacon.select", "b", b, "kind", "patchexpired", "taken", selected, "capReached", capReached)
+		verifhook.Yield("beacon.select.exit", "patchexpired", b)
+	}
 	return selected, capReached
 }
 
